@@ -4,40 +4,42 @@
 
 // failed check (?): 
 #[test]
-fn kani_concrete_playback_pred_16042813008493014246() {
+fn kani_concrete_playback_pred_5073447627103863407() {
     let concrete_vals: Vec<Vec<u8>> = vec![
-        // 0ul
-        vec![0, 0, 0, 0, 0, 0, 0, 0],
-        // 1ul
-        vec![1, 0, 0, 0, 0, 0, 0, 0],
-        // 1ul
-        vec![1, 0, 0, 0, 0, 0, 0, 0],
-        // 2ul
-        vec![2, 0, 0, 0, 0, 0, 0, 0],
+        // 5ul
+        vec![5, 0, 0, 0, 0, 0, 0, 0],
+        // 6ul
+        vec![6, 0, 0, 0, 0, 0, 0, 0],
+        // 7ul
+        vec![7, 0, 0, 0, 0, 0, 0, 0],
+        // 7ul
+        vec![7, 0, 0, 0, 0, 0, 0, 0],
         // 1
         vec![1],
-        // 0ul
-        vec![0, 0, 0, 0, 0, 0, 0, 0],
-        // 4ul
-        vec![4, 0, 0, 0, 0, 0, 0, 0],
+        // 2ul
+        vec![2, 0, 0, 0, 0, 0, 0, 0],
+        // 6ul
+        vec![6, 0, 0, 0, 0, 0, 0, 0],
     ];
     kani::concrete_playback_run(concrete_vals, crate::c04::q::n3_u7::pred);
 }
 
 // failed check (?): 
 #[test]
-fn kani_concrete_playback_pred_9250211525335244283() {
+fn kani_concrete_playback_pred_2674637554291734463() {
     let concrete_vals: Vec<Vec<u8>> = vec![
-        // 5ul
-        vec![5, 0, 0, 0, 0, 0, 0, 0],
-        // 5ul
-        vec![5, 0, 0, 0, 0, 0, 0, 0],
-        // 5ul
-        vec![5, 0, 0, 0, 0, 0, 0, 0],
+        // 1ul
+        vec![1, 0, 0, 0, 0, 0, 0, 0],
+        // 7ul
+        vec![7, 0, 0, 0, 0, 0, 0, 0],
+        // 7ul
+        vec![7, 0, 0, 0, 0, 0, 0, 0],
         // 2ul
         vec![2, 0, 0, 0, 0, 0, 0, 0],
         // 0
         vec![0],
+        // 0ul
+        vec![0, 0, 0, 0, 0, 0, 0, 0],
         // 2ul
         vec![2, 0, 0, 0, 0, 0, 0, 0],
     ];
@@ -46,20 +48,42 @@ fn kani_concrete_playback_pred_9250211525335244283() {
 
 // failed check (?): 
 #[test]
-fn kani_concrete_playback_pred_11947540777003018244() {
+fn kani_concrete_playback_pred_9531986021372296683() {
     let concrete_vals: Vec<Vec<u8>> = vec![
-        // 0ul
-        vec![0, 0, 0, 0, 0, 0, 0, 0],
+        // 6ul
+        vec![6, 0, 0, 0, 0, 0, 0, 0],
+        // 7ul
+        vec![7, 0, 0, 0, 0, 0, 0, 0],
+        // 7ul
+        vec![7, 0, 0, 0, 0, 0, 0, 0],
+        // 1ul
+        vec![1, 0, 0, 0, 0, 0, 0, 0],
+        // 1
+        vec![1],
+        // 3ul
+        vec![3, 0, 0, 0, 0, 0, 0, 0],
+    ];
+    kani::concrete_playback_run(concrete_vals, crate::c04::q::n3_u7::pred);
+}
+
+// failed check (?): 
+#[test]
+fn kani_concrete_playback_pred_2346282666872293455() {
+    let concrete_vals: Vec<Vec<u8>> = vec![
+        // 1ul
+        vec![1, 0, 0, 0, 0, 0, 0, 0],
         // 3ul
         vec![3, 0, 0, 0, 0, 0, 0, 0],
         // 5ul
         vec![5, 0, 0, 0, 0, 0, 0, 0],
-        // 41939751388883451ul
-        vec![251, 169, 128, 79, 251, 255, 148, 0],
+        // 8ul
+        vec![8, 0, 0, 0, 0, 0, 0, 0],
         // 0
         vec![0],
         // 0ul
         vec![0, 0, 0, 0, 0, 0, 0, 0],
+        // 6ul
+        vec![6, 0, 0, 0, 0, 0, 0, 0],
     ];
     kani::concrete_playback_run(concrete_vals, crate::c04::q::n3_u7::pred);
 }
